@@ -10,7 +10,7 @@ import fscommon as fc
 import handler_diff as hd
 import pymarshal as pm
 import samples
-from framework import Case, coq_property, build_cli, write_replay, cli_bin, ENV
+from framework import REPO, Case, coq_property, build_cli, write_replay, cli_bin, ENV
 
 MODELLED = ["gzip", "ar", "javadoc", "pyc", "pyc-zero-mtime"]
 EXT = fc.EXT
@@ -110,6 +110,24 @@ def gen_cases(rng, tier):
     # deep nesting and wide counts
     for d in (999, 1000, 1001, 5000, 200000):
         add("pyc", pm.header((3, 12)) + b")\x01" * d + b"N", None, ["deep%d" % d])
+    # nested code objects (the largest stack frames of the reader) just below and at the depth limit the source declares
+    import re as _re
+    mlim = _re.search(r"MAX_MARSHAL_STACK_DEPTH\s*:\s*\w+\s*=\s*(\d+)", open(os.path.join(REPO, "src/handlers/pyc.rs")).read())
+    limit = int(mlim.group(1)) if mlim else 1000
+    for ver in ((3, 8), (3, 12)):
+        lay = pm.code_layout(ver)
+        for levels in sorted({max(1, (limit - 6) // 2), max(1, (limit - 2) // 2), limit // 2 + 2, limit}):
+            inner = b"N"
+            for _ in range(levels):                       # built as bytes: the encoder of lib/pymarshal.py is recursive
+                k, body = 0, b"c"
+                for f in lay:
+                    if f == "i":
+                        body += b"\0\0\0\0"
+                    else:
+                        body += b"s\0\0\0\0" if k == 0 else (b")\x01" + inner if k == 1 else b")\x00")
+                        k += 1
+                inner = body
+            add("pyc", pm.header(ver) + inner, None, ["nested-code", "levels%d" % levels, "limit%d" % limit])
     add("pyc", pm.header((3, 12)) + b"(\xff\xff\xff\xffN", None, ["huge-count"])
     add("pyc", pm.header((3, 12)) + b"s\xff\xff\xff\x7fabc", None, ["huge-len"])
     add("pyc", pm.header((3, 12)) + b"l\x00\x00\x00\x80\x01\x00", None, ["long-min"])
